@@ -710,7 +710,9 @@ class Summariser:
             if not isinstance(n, ast.Name):
                 return False
             v = env.get(n.id)
-            return isinstance(v, Seq) or (n.id in self.seq_names and (v is None or (isinstance(v, Term) and v.text == n.id)))
+            if isinstance(v, Seq) or (n.id in self.seq_names and (v is None or (isinstance(v, Term) and v.text == n.id))):
+                return True
+            return isinstance(v, Term) and v.text in self.seq_names  # a local that stands for such a parameter
 
         def as_len(n):
             return ast.Compare(left=ast.Call(func=ast.Name(id="len", ctx=ast.Load()), args=[n], keywords=[]), ops=[ast.GtE()], comparators=[ast.Constant(value=1)])
